@@ -10,7 +10,7 @@ out=$(VERIF_EVIDENCE_DIR=$wt/.evidence VERIF_REPLAYS_DIR=$wt/.replays VERIF_REPO
 git -C /repo worktree remove --force "$wt"; git -C /repo worktree prune
 rm -f /verif/.build/*$(echo $wt | tr -c 'A-Za-z0-9' '_' | sed 's/_$//')*
 case $rc in
- 1) echo "CAUGHT $(basename $patch) by $id $tier: $(echo "$out" | grep -m1 -o 'key=[^] ]*')";;
+ 1) echo "CAUGHT $(basename $patch) by $id $tier: $(echo "$out" | grep -o 'key=[^] ]*' | sort | uniq -c | sort -rn | head -3 | awk '{print $2}' | paste -sd,)";;
  0) echo "MISSED $(basename $patch) by $id $tier";;
  *) echo "INCONCLUSIVE($rc) $(basename $patch) by $id $tier"; echo "$out" | tail -5;;
 esac
